@@ -5,4 +5,4 @@ cd /repo
 for c in $(git log --format=%h -${1:-40}); do
   git diff $c^ $c > /tmp/audit-c.diff
   git apply --reverse --check /tmp/audit-c.diff 2>/dev/null || echo "NOT-PRESENT $c $(git log --format=%s -1 $c | cut -c1-80)"
-done | grep -v "8c32d42\|c968675\|6838018\|13d1261\|52b4f75\|0e86de9\|7c0fd0a\|36c341f"
+done | grep -v "aa018b1\|8c32d42\|c968675\|6838018\|13d1261\|52b4f75\|0e86de9\|7c0fd0a\|36c341f"
